@@ -433,6 +433,7 @@ pub struct World {
     /// the endpoint. `left_at` records the moves.
     pub old_addresses_die_after_ns: Option<u64>,
     pub left_at: BTreeMap<SocketAddr, u64>,
+    keydbg: BTreeMap<(usize, usize), bool>,
     /// Retry packets put on the wire so far
     pub retry_seen: u32,
     polled_pending: BTreeSet<(usize, usize)>,
@@ -566,6 +567,7 @@ impl World {
             max_jump_ns: u64::MAX,
             old_addresses_die_after_ns: None,
             left_at: BTreeMap::new(),
+            keydbg: BTreeMap::new(),
             retry_seen: 0,
             polled_pending: BTreeSet::new(),
             pending_wake: false,
@@ -1649,6 +1651,21 @@ impl World {
             }
             for m in msgs {
                 self.led.violate("C20", m);
+            }
+        }
+        if std::env::var("QV_TRACE_KEYS").is_ok() {
+            if let Some(tr) = &mut self.trace {
+                for (ei, e) in self.eps.iter().enumerate() {
+                    for (ch, c) in &e.conns {
+                        let p = c.c.verif_probe();
+                        let k = (ei, *ch);
+                        if self.keydbg.get(&k) != Some(&p.key_phase) {
+                            self.keydbg.insert(k, p.key_phase);
+                            tr.push(format!("{} keyphase {ei}/{ch} -> {}", self.now, p.key_phase));
+                            eprintln!("KEYPHASE t={} {ei}/{ch} -> {}", self.now, p.key_phase);
+                        }
+                    }
+                }
             }
         }
         // forget drained connections' bookkeeping
